@@ -418,6 +418,79 @@ pub fn suite_clirefuse(dir: &str, seed: u64, _thorough: bool, st: &mut Stats) {
 
 // ---------------------------------------------------------------------------------------------
 /// parse an strace log: write-side effects on paths inside the scenario directory
+/// Suite `clicorrupt` (C04): the bita binary itself on damaged archives -- truncated, bit-flipped, regions swapped or
+/// overwritten, bytes removed -- from a local file and over http, with and without seeds. Exit status 0 is only
+/// acceptable together with an output identical to the source; local cases are also run through the model.
+pub fn suite_clicorrupt(dir: &str, seed: u64, thorough: bool, st: &mut Stats) {
+    let mut out = SuiteOut::new(dir, "clicorrupt");
+    let narch = if thorough { 16 } else { 3 };
+    let per = if thorough { 60 } else { 36 };
+    par_for(narch * per, 12, |i, st, lines| {
+        let ai = i / per;
+        let mi = i % per;
+        // the archive of this group (deterministic in ai)
+        let mut rng = Rng::new(seed ^ 0x95 ^ ((ai as u64) << 24));
+        let mut c = gen_cli_case(&mut rng, false);
+        if c.src.len() < 600 { c.src = gen_data(&mut rng, 4000).0; }
+        let s = Scn::new("cc", i as u64);
+        s.write("src.bin", &c.src);
+        let mut args: Vec<String> = vec!["compress".into(), "-i".into(), "src.bin".into()];
+        args.extend(compress_args(&c));
+        args.push("good.cba".into());
+        let argv: Vec<&str> = args.iter().map(|x| x.as_str()).collect();
+        if s.bita(&argv, None, &[]).0 != 0 { return; }
+        let good = s.read("good.cba").unwrap();
+        let hlen = 14 + u64::from_le_bytes(good[6..14].try_into().unwrap()) as usize + 72;
+        let mut rng = Rng::new(seed ^ 0x96 ^ ((i as u64) << 20));
+        let mut m = good.clone();
+        let what = match mi % 9 {
+            0 => { m.truncate(m.len() - 1); "trunc-1" }
+            1 => { let l = rng.range(hlen as u64, m.len() as u64) as usize; m.truncate(l); "trunc-data" }
+            2 => { let l = rng.below(hlen as u64) as usize; m.truncate(l); "trunc-header" }
+            3 => { if m.len() > hlen { let k = rng.range(hlen as u64 * 8, m.len() as u64 * 8 - 1) as usize; m[k / 8] ^= 1 << (k % 8); } "bitflip-data" }
+            4 => { let k = rng.below(hlen as u64 * 8) as usize; m[k / 8] ^= 1 << (k % 8); "bitflip-header" }
+            5 => { if m.len() > hlen + 10 { let a = rng.range(hlen as u64, m.len() as u64 - 5) as usize; let b = rng.range(hlen as u64, m.len() as u64 - 5) as usize; for j in 0..4 { m.swap(a + j, b + j); } } "swap" }
+            6 => { let a = rng.below(m.len() as u64) as usize; let e = (a + rng.range(1, 30) as usize).min(m.len()); for j in a..e { m[j] = rng.next() as u8; } "overwrite" }
+            7 => { if m.len() > hlen + 2 { let a = rng.range(hlen as u64, m.len() as u64 - 1) as usize; m.remove(a); } "deletion" }
+            _ => { let keep = rng.range(hlen as u64, m.len() as u64) as usize; for j in keep..m.len() { m[j] = 0; } "zeroed-tail" }
+        };
+        s.write("bad.cba", &m);
+        let via_http = rng.chance(1, 3);
+        let with_seed = rng.chance(1, 3);
+        let verify = rng.chance(1, 5);
+        let mut cargs: Vec<String> = vec!["clone".into()];
+        if with_seed { s.write("seed.bin", &edit(&mut rng, &c.src)); cargs.push("--seed".into()); cargs.push("seed.bin".into()); }
+        if verify { cargs.push("--verify-output".into()); }
+        let srv = if via_http { Some(ScriptServer::start(m.clone(), vec![])) } else { None };
+        cargs.push(match &srv { Some(x) => x.url(), None => "bad.cba".into() });
+        cargs.push("out.bin".into());
+        let cargv: Vec<&str> = cargs.iter().map(|x| x.as_str()).collect();
+        let (code, log) = s.bita(&cargv, None, &[]);
+        if let Some(x) = srv { let _ = x.finish(); }
+        st.evaluations += 1;
+        st.oracle_checks += 1;
+        let got = s.read("out.bin");
+        let replay = format!("clicorrupt {} {} args={} src={} archive={}", what, c.cfg.line(), cargs.join(" "), hex(&c.src), hex(&m));
+        let identical = got.as_deref() == Some(&c.src[..]);
+        st.count(&format!("clicorrupt/{}/{}/{}", what, if via_http { "http" } else { "file" }, if code == 0 { "ok-identical" } else { "rejected" }));
+        if code != 0 { st.nontrivial_key(replay.as_bytes()); }
+        if code == 0 && !identical {
+            st.violation("C04", &format!("{}: bita clone exited 0 on a damaged archive but the output differs from the source", what), &replay);
+        }
+        if code != 0 && code != 1 {
+            st.violation("C15", &format!("{}: bita clone ended with status {} ({})", what, code, log.lines().last().unwrap_or("")), &replay);
+        }
+        if mi == 0 { st.sample(format!("clicorrupt {} archive={}B header={}B", c.cfg.line(), good.len(), hlen)); }
+        // the model on the same bytes (cases without a seed: a seed may supply the damaged chunk)
+        if !via_http && !with_seed && m.len() < 40_000 {
+            if let Some(al) = crate::tamper::aclone_line(&m) {
+                lines.push((al, if code == 0 { format!("OK {}", hex(&got.unwrap_or_default())) } else { "ERR".into() }));
+            }
+        }
+    }, st, &mut out);
+    out.finish();
+}
+
 fn trace_effects(log: &str, dir: &Path) -> Vec<String> {
     let mut eff: Vec<String> = vec![];
     let d = dir.to_string_lossy().to_string();
